@@ -133,7 +133,7 @@ fn main() {
                     std::process::exit(0);
                 }
                 Ok(Some(v)) => {
-                    if v.prop == id {
+                    if rv::enga::owns(v.prop, &id) {
                         println!("VIOLATION property={id} replay={}", file.display());
                         println!("  sig={} {}", v.sig, v.msg);
                         std::process::exit(1);
